@@ -4,6 +4,7 @@ from ..prog import *
 from ..facts import AnalysisBroken
 from .. import bufmodel
 from .. import evbmodel
+from .. import evbsearch
 from . import C13
 
 UNITS = None   # E3 needs every unit
@@ -147,4 +148,5 @@ def run(ctx, config):
                     r3.bad("K2:%s:writes-%s" % (fn.name, l[2]), el.where(), fn.name, "%s is written outside buffer.c: %s" % (l[2], show(el.e)[:60]))
     rules.append(r3)
     rules.append(evbmodel.rule_model(P, "C12-model"))
+    rules.append(evbsearch.rule_search_eol(P, "C12-search-eol"))
     return rules
